@@ -17,6 +17,11 @@ impl Invert {
 
 impl Pattern for Invert {
     fn matches(&self, tokens: &[Token], source: &[char]) -> usize {
+        // There is no token to match against.
+        if tokens.is_empty() {
+            return 0;
+        }
+
         if self.inner.matches(tokens, source) != 0 {
             0
         } else {
